@@ -86,6 +86,7 @@ type Plan struct {
 	StarveName  string   `json:"starveName,omitempty"`
 	StarveSteps uint64   `json:"starveSteps,omitempty"`
 	MapPerm     bool     `json:"mapPerm,omitempty"`
+	PreemptUnlock bool   `json:"preemptUnlock,omitempty"` // lock releases are scheduling points in this world
 	Cfg         Cfg      `json:"cfg"`
 	Ops         []Op     `json:"ops"`
 	Tape        []uint32 `json:"tape,omitempty"`
@@ -289,6 +290,8 @@ func TestSim(t *testing.T) {
 		p := impl.gen(seed, *fTier)
 		p.Prop = *fProp
 		p.Seed = seed
+		// swarm: in a third of the worlds releasing a lock is a scheduling point as well
+		p.PreemptUnlock = simrt.Mix(seed, 0x756e6c6b)%3 == 0
 		r := execPlan(t, impl, p)
 		if (len(r.Viol) > 0 || len(r.Infra) > 0 || *fDump) && *fOut != "" {
 			name := fmt.Sprintf("%s/%s-%d.plan.json", *fOut, *fProp, seed)
@@ -354,7 +357,7 @@ func execPlan(t *testing.T, impl propImpl, p *Plan) *Result {
 
 func kernelConfig(p *Plan) simrt.Config {
 	return simrt.Config{Seed: p.Seed, Tape: p.Tape, Replay: p.Replay, Sched: p.Sched, PCTDepth: p.PCTDepth,
-		StarveName: p.StarveName, StarveSteps: p.StarveSteps, MapPerm: p.MapPerm, Trace: *fTrace, Debug: *fDebug, MaxSteps: uint64(p.Cfg.Knobs["maxSteps"])}
+		StarveName: p.StarveName, StarveSteps: p.StarveSteps, MapPerm: p.MapPerm, PreemptUnlock: p.PreemptUnlock, Trace: *fTrace, Debug: *fDebug, MaxSteps: uint64(p.Cfg.Knobs["maxSteps"])}
 }
 
 func finish(w *World, p *Plan, r *Result) {
